@@ -1108,6 +1108,15 @@ where
         heights
     };
 
+    // The tallest committed matrix must fit the FRI domain the query index was sampled for.
+    if let Some(&h_max) = unique_heights_desc.first()
+        && h_max > log_global_max_height
+    {
+        return Err(VerificationError::InvalidProofShape(format!(
+            "matrix of log height {h_max} exceeds the FRI domain of log size {log_global_max_height}"
+        )));
+    }
+
     let eval_points = if unique_heights_desc.is_empty() {
         BTreeMap::new()
     } else {
